@@ -122,6 +122,8 @@ func title0(s string) string {
 
 // GenCfg steers the program generator.
 type GenCfg struct {
+	// NoHuge: no values in the upper half of a two-byte prefix (tens of thousands of elements)
+	NoHuge       bool
 	MaxPackets   int
 	MaxFields    int
 	Shapes       bool            // non-canonical identifier shapes (C07)
